@@ -331,44 +331,15 @@ def d10_4(ctx):
     _close_rule(ctx)
 
 
-@rule(P, "D10.5", "T-DOM", floor=3)
+@rule(P, "D10.5", "T-WITNESS", floor=3)
 def d10_5(ctx):
-    """close order: forward close (only if connected) -> un-register (only if a session exists) -> socket close."""
-    drv = ctx.model.cls(f"{CD}:CIPDriver")
-    cl = drv.methods["close"]
-    g = ctx.cfg(cl)
+    """close order: forward close (only if connected) -> un-register (only if a session exists) -> socket close; `_forward_close` clears
+    the connected flag only for a valid reply.  Decided by folding `close` (with whatever helpers it delegates to) on every combination
+    of connected / session / socket x failing step (D10.11) and `_forward_close` on a granted and a refused reply (D10.13); an earlier
+    form located the three calls as statements of `close` itself and alarmed when the stages became private methods."""
+    from .driver import _close_rule, _session_rule
 
-    def node_of(path):
-        for n in g.nodes:
-            if n.kind == "stmt" and any(isinstance(c, ast.Call) and attr_path(c.func) == path for c in walk(n.ast)):
-                return n
-        return None
-
-    fc, ur, sc = node_of("self._forward_close"), node_of("self._un_register_session"), node_of("self._sock.close")
-    if not (fc and ur and sc):
-        ctx.violation(ckey(f"{CD}:CIPDriver.close", "order"), cl, f"close() no longer performs forward close / un-register / socket close (found: {bool(fc)}, {bool(ur)}, {bool(sc)}): the target keeps a session or connection of this client")
-        return
-
-    def can_follow(a, b):
-        """is there a path from a to b?"""
-        return b in g.reachable(a)
-
-    order_ok = can_follow(fc, ur) and not can_follow(ur, fc) and can_follow(ur, sc) and not can_follow(sc, ur) and not can_follow(sc, fc)
-    ctx.check(order_ok, ckey(f"{CD}:CIPDriver.close", "order"), cl, "forward close precedes un-register precedes socket close", "closing steps are not ordered forward-close -> un-register -> socket close (e.g. the socket is closed before the session is un-registered)")
-    ctx.check(_under_truthy(g, lambda e: attr_path(e) == "self._target_is_connected", fc), ckey(f"{CD}:CIPDriver.close", "fc-guard"), fc.ast, "forward close only when connected", "forward close is not conditioned on the connected state")
-    sess_guard = False
-    for t in g.nodes:
-        if t.kind == "test":
-            c = cmp_norm(t.ast)
-            if c and c[0] == "!=0" and c[1].terms == {"self._session": 1} and c[1].const == 0 and g.branch_dominates(t, True, ur):
-                sess_guard = True
-            if attr_path(t.ast) == "self._session" and g.branch_dominates(t, True, ur):
-                sess_guard = True
-    ctx.check(sess_guard, ckey(f"{CD}:CIPDriver.close", "ur-guard"), ur.ast, "un-register only when a session exists", "un-register is not conditioned on an existing session")
-    # _forward_close clears the connected flag only on success: decided by folding it on a granted and a refused reply (D10.13) - an
-    # earlier form required the store to sit under `if response:` and alarmed on `if not response: ...; return False` first
-    from .driver import _session_rule
-
+    _close_rule(ctx)
     _session_rule(ctx)
 
 
